@@ -499,6 +499,17 @@ def pmap(fn, arglist, procs=None, task_timeout=None):
     return results
 
 
+def pmap_staged(fn, first, rest, **kw):
+    """Run the cheap concrete tasks first; if they already establish a violation on the real code, the (possibly
+    explosive, on broken code) symbolic tasks are skipped - the verdict cannot change and the command stays short."""
+    out = pmap(fn, first, **kw)
+    if any(d.get("violations") for d in out if d):
+        p = Part()
+        p.d["inconclusive"].append(f"{len(list(rest))} symbolic tasks skipped: a violation was already reproduced on the real code by the concrete stage")
+        return out + [p.d]
+    return out + pmap(fn, rest, **kw)
+
+
 @contextlib.contextmanager
 def quiet():
     buf = io.StringIO()
